@@ -172,7 +172,7 @@ def run_case(case):
     procs = [proc]
     if case.get('seq'):
         mon = Monitor()
-        params[Monitor.DELTA] = 0.5
+        params[Monitor.DELTA] = case.get('delta', 0.5)
         top = ProcessSequence([mon, proc])
         procs = [mon, proc]
     top.setMaximumTime(case['maxtime'])
